@@ -361,6 +361,12 @@ func (e *feEnv) initial(v ssa.Value, key string) poly {
 	switch {
 	case strings.HasPrefix(key, "param:"):
 		return pVar(strings.TrimPrefix(key, "param:"))
+	case strings.HasPrefix(key, "global:sm2P256Factor["):
+		// the table of small constants k (in Montgomery form); its contents are pinned by K-C03-tables
+		var k int64
+		if _, err := fmt.Sscanf(key, "global:sm2P256Factor[%d]", &k); err == nil && k >= 0 && k <= 8 {
+			return pConst(k)
+		}
 	case strings.HasPrefix(key, "global:sm2P256."):
 		return pVar("curve." + strings.TrimPrefix(key, "global:sm2P256."))
 	case strings.HasPrefix(key, "param:curve."):
